@@ -40,7 +40,7 @@ TNext == /\ bad = {} /\ l <= Len(Steps)
 TSpec == TInit /\ [][TNext]_<<st, hist, nApp, h, tid, l, bad>>
 
 \* bookkeeping, evaluated once per distinct state
-Mark == /\ (bad # {} => PrintT(<<"MISMATCH", tid, l - 1, bad>>))
+Mark == /\ (bad # {} => PrintT(ToJson([mismatch_tid |-> tid, step |-> l - 1, bad |-> bad])))
         /\ (bad = {} /\ l = Len(Steps) + 1 => TLCSet(1, TLCGet(1) \cup {tid}))
 \* design invariants on the spec state that the real trace drives
 Conserved == bad # {} \/ C!Conservation
